@@ -795,11 +795,16 @@ N_DICTS = 2
 
 def gen_history(r):
     """events: open (literal dict) / openwith (an application dict OBJECT that may be edited before and AFTER, and
-    reused) / slave (late on_connect) / close / edit (the application edits dict object d) / setdefault (the
+    reused for several connections, classic and plain) / close / edit (the application edits dict object d) / setdefault (the
     application edits DEFAULT_CONFIG; restored when the case ends) / check"""
     slots = r.range(2, 5)
     state = ["fresh"] * slots
     evs = []
+    if r.chance(2, 3):
+        # applications keep ONE settings dict and pass it to several connections: give it content first
+        ov = gen_overlay(r)
+        ov.setdefault(r.choice(SWITCH_KEYS), r.chance(1, 2))
+        evs.append(["edit", 0, ov])
     for _ in range(r.range(3, 14)):
         i = r.below(slots)
         k = r.below(10)
@@ -810,8 +815,8 @@ def gen_history(r):
             evs.append(["setdefault", gen_env_overlay(r)])
         elif state[i] == "fresh":
             kind = r.choice(["direct", "void", "slave", "slave", "custom"])
-            if r.chance(1, 2):
-                evs.append(["openwith", i, r.below(N_DICTS), kind])
+            if r.chance(3, 5):
+                evs.append(["openwith", i, 0 if r.chance(2, 3) else r.below(N_DICTS), kind])
             else:
                 evs.append(["open", i, gen_overlay(r), kind])
             state[i] = "live"
@@ -819,8 +824,6 @@ def gen_history(r):
             if k < 3:
                 evs.append(["close", i])
                 state[i] = "closed"
-            elif k < 5:
-                evs.append(["slave", i])
             else:
                 evs.append(["check"])
         else:
@@ -863,6 +866,28 @@ class HistoryRun(object):
                 CustomService.seen.append(conn._config["allow_all_attrs"])      # reads, never writes
         self.custom = CustomService
 
+    def open_conn(self, kind, cfg):
+        """establish a real connection of the given kind with the given config dict OBJECT"""
+        protocol, service = self.protocol, self.service
+        if kind == "direct":
+            return protocol.Connection(service.VoidService(), DummyChannel(), cfg)
+        if kind == "void":
+            return service.VoidService._connect(DummyChannel(), cfg)
+        if kind == "custom":
+            return self.custom()._connect(DummyChannel(), cfg)
+        if kind == "slave":
+            return service.SlaveService._connect(DummyChannel(), cfg)      # classic mode
+        raise ValueError(kind)
+
+    def decisions_of(self, c):
+        out = []
+        for okind, req, name in PANEL:
+            line = run_real(c, panel_object(okind), req, name)
+            if okind == "view":
+                line = observable(SHAPE_BY_KEY["restricted-attrs-name"], line)
+            out.append(line)
+        return out
+
     def apply(self, ev):
         protocol, service = self.protocol, self.service
         if ev[0] in ("open", "openwith"):
@@ -871,16 +896,7 @@ class HistoryRun(object):
                 cfg = to_real_dict(ov)
             else:
                 cfg = self.dicts[ov]            # the OBJECT itself, not a copy: it may be edited later
-            if kind == "direct":
-                self.conns[i] = protocol.Connection(service.VoidService(), DummyChannel(), cfg)
-            elif kind == "void":
-                self.conns[i] = service.VoidService._connect(DummyChannel(), cfg)
-            elif kind == "custom":
-                self.conns[i] = self.custom()._connect(DummyChannel(), cfg)
-            elif kind == "slave":
-                self.conns[i] = service.SlaveService._connect(DummyChannel(), cfg)      # classic mode
-            else:
-                raise ValueError(kind)
+            self.conns[i] = self.open_conn(kind, cfg)
         elif ev[0] == "slave":
             service.SlaveService().on_connect(self.conns[ev[1]])
         elif ev[0] == "close":
@@ -1353,6 +1369,7 @@ def oracle_history(hist):
             c.close()
     try:
         base = fresh_default_decisions()
+        shadow = [dict() for _ in range(N_DICTS)]      # what the APPLICATION wrote into its dict objects, kept apart
         for step, ev in enumerate(hist["events"]):
             # edits of an application dict / of DEFAULT_CONFIG belong to no connection: EVERY open connection is "other"
             actor = ev[1] if ev[0] in ("open", "openwith", "slave", "close") else None
@@ -1361,6 +1378,26 @@ def oracle_history(hist):
                 if c is not None and not c.closed and j != actor:
                     before[j] = run.decisions(j)
             run.apply(ev)
+            if ev[0] == "edit":
+                shadow[ev[1]].update(copy.deepcopy(ev[2]))
+            if ev[0] in ("open", "openwith"):
+                # the new connection's policy = defaults overridden by exactly what the application's dict said when it
+                # was passed (plus classic overrides iff it is the classic one): same decisions as a connection of the
+                # same kind opened with a PRIVATE copy of those settings
+                said = copy.deepcopy(ev[2] if ev[0] == "open" else shadow[ev[2]])
+                ref = run.open_conn(ev[3], to_real_dict(said))
+                try:
+                    want = run.decisions_of(ref)
+                finally:
+                    ref.close()
+                got = run.decisions(ev[1])
+                if got != want:
+                    k = [i for i in range(len(want)) if want[i] != got[i]][0]
+                    how = ("its settings dict object %d, which other connections were opened with before" % ev[2]
+                           if ev[0] == "openwith" else "a literal dict")
+                    return ("step %d: connection %d (%s service) was opened with the application's settings %r (%s) but "
+                            "decides %s %s %r as %r; a connection opened with a private copy of the same settings decides %r"
+                            % (step, ev[1], ev[3], said, how, PANEL[k][0], PANEL[k][1], PANEL[k][2], got[k], want[k]))
             for j, dec in before.items():
                 after = run.decisions(j)
                 if after != dec:
@@ -1416,6 +1453,8 @@ def shrink_history(hist, msg):
 
 def case_signature(case, msg):
     if case.get("kind") == "history":
+        if "was opened with the application's settings" in msg:
+            return "history:later connection does not follow the settings it was given"
         return "history:" + msg.split(") changed")[0].split("(")[-1][:60]
     return "input:%s:%s:%s" % (case.get("req"), case.get("shape"), msg.split(";")[0][:50])
 
